@@ -95,3 +95,12 @@ Definition flat_item (pfnames : list str) (lib : list tpl) (i : item) : bool :=
   end.
 Definition page_result (lib : list tpl) (page : enc) : enc :=
   flat_map (fun i => match i with T (n :: args) => result_of lib (codes n) args | _ => [i] end) page.
+
+(* ... under a selection (C13): with [pre_expand] only the calls check_template_need_expand selects are replaced, the
+   others are emitted as they were written; without it every call is replaced *)
+Definition page_result_sel (lib : list tpl) (sel : selection) (pre_expand : bool) (page : enc) : enc :=
+  flat_map (fun i => match i with
+                     | T (n :: args) => if negb pre_expand || need_expand lib sel (codes n) then result_of lib (codes n) args
+                                        else unexpanded_template (n :: args)
+                     | _ => [i]
+                     end) page.
